@@ -324,8 +324,101 @@ func serviceTerminate() {
 	fx.Settle()
 	vrt.Observe("hooks=%d,%d,%d", a.impl.Terminated, b.impl.Terminated, x.w.Root.Terminated)
 }
+// clientHistories: every sequence of <= n operations {add, remove(k)} on a
+// client-side service reference, against a model: identifiers unique among
+// live objects, each live object reaches its own implementation, each removed
+// one had its hook run exactly once.
+func clientHistories(n int) func() {
+	return func() {
+		w := startClientObjects()
+		type cobj struct {
+			impl    *probe.Impl
+			id      uint32
+			removed bool
+		}
+		var objs []*cobj
+		type step struct{ op, k int }
+		var steps []step
+		for i := 0; i < n; i++ {
+			op := vrt.ChooseFree(6, "op: add / remove(0..3) / stop")
+			if op == 5 {
+				break
+			}
+			steps = append(steps, step{op, op - 1})
+		}
+		vrt.Explore()
+		log := ""
+		for _, st := range steps {
+			if st.op == 0 {
+				log += "add;"
+				o := &cobj{impl: probe.New(fmt.Sprintf("o%d", len(objs)))}
+				id, err := w.svc.Add(probe.ProbeObject(o.impl))
+				if err != nil {
+					vrt.Failf("add-failed/client-side", "Add failed after [%s]: %v", log, err)
+					return
+				}
+				o.id = id
+				for _, other := range objs {
+					if !other.removed && other.id == id {
+						vrt.Failf("id-collision/client-side", "after [%s] a new client-side object received identifier %d, which a live object holds", log, id)
+						return
+					}
+				}
+				objs = append(objs, o)
+			} else {
+				log += fmt.Sprintf("remove(%d);", st.k)
+				if st.k >= len(objs) {
+					continue
+				}
+				o := objs[st.k]
+				// the identifier of a removed object may have been given to a later one
+				target := o
+				if o.removed {
+					for _, other := range objs {
+						if !other.removed && other.id == o.id {
+							target = other
+						}
+					}
+				}
+				err := w.svc.Remove(target.id)
+				if target.removed && err == nil {
+					vrt.Failf("double-remove-accepted/client-side", "removing an already removed client-side object succeeded after [%s]", log)
+				}
+				if !target.removed && err != nil {
+					vrt.Failf("remove-failed/client-side", "removing a live client-side object failed after [%s]: %v", log, err)
+				}
+				if err == nil {
+					target.removed = true
+				}
+			}
+			vrt.Quiesce()
+			for i, o := range objs {
+				want := 0
+				if o.removed {
+					want = 1
+				}
+				if o.impl.Terminated != want {
+					vrt.Failf(fmt.Sprintf("terminate-hook-count/client-side/%d", o.impl.Terminated), "client-side object %d: termination hook ran %d times, expected %d, after [%s]", i, o.impl.Terminated, want, log)
+					return
+				}
+			}
+		}
+		for i, o := range objs {
+			if !o.removed {
+				w.callOK(fmt.Sprintf("after [%s], object %d", log, i), o.id, o.impl, int32(60+i))
+			}
+		}
+		vrt.Quiesce()
+		fx.Settle()
+		vrt.Observe("%s", log)
+	}
+}
 
 func init() {
+	reg.Register(&reg.Scenario{Property: "C16", Name: "client-objects-histories-6", Body: clientHistories(6), Quick: 0, Thorough: 0,
+		Doc: "client-side service reference: every sequence of <=6 operations {add, remove(0..3)} against the model (identifiers unique among live objects, own implementation reached, hooks exactly once)"})
+	reg.Register(&reg.Scenario{Property: "C16", Name: "client-objects-histories-7", Body: clientHistories(7), Quick: -1, Thorough: 0,
+		Doc: "the same with <=7 operations"})
 	reg.Register(&reg.Scenario{Property: "C16", Name: "service-terminate", Body: serviceTerminate, Quick: 1, Thorough: 2,
 		Doc: "one object removed, then the host terminates the whole service: every hook ran exactly once"})
 	reg.Register(&reg.Scenario{Property: "C16", Name: "hook-removes-another-object", Body: hookCascade, Quick: 1, Thorough: 2,
